@@ -808,7 +808,7 @@ INT_PARAMS = {"rank", "n_samples", "mode", "modes", "n_iter_max", "n_iter_max_in
               "skip_matrix", "skip", "axis", "k", "n_padding", "max_stagnation", "size", "n_dims", "n_components", "random_state", "seed", "verbose", "indices", "indices_list",
               "slice_idx", "n_iter_parafac", "svd_mask_repeats", "n_iter_mask_imputation", "max_fail", "iteration", "n_dim", "n_dimensions", "fixed_modes", "nn_modes", "fixed_factors",
               "tensor_shape", "n_oversamples", "n_power_iterations", "n_eigen", "n_unfoldings", "threshold_k", "weight_rank", "weight_ranks", "batched_modes", "row_modes", "column_modes",
-              "n_modes", "n_matrices", "skip_factor", "start", "ranks", "tensorized_shape"} | (set(os.environ.get("VERIF_C18_EXTRA_INT_PARAMS", "").split(",")) - {""})
+              "n_modes", "n_matrices", "skip_factor", "start", "ranks", "tensorized_shape", "row_idx", "col_idx"}
 FLOAT_PARAMS = {"threshold", "regularizer", "reg", "parameter", "tol", "lr", "alpha", "scale", "jump", "tol_outer", "tol_inner", "epsilon", "reg_W", "reg_E", "reg_J", "learning_rate",
                 "mu_init", "mu_max", "sparsity_coef", "ridge_coef", "sparsity_coefficient", "ridge_coefficient", "l2_reg", "l1_reg", "acc_pow", "delta", "eps", "bound", "percent",
                 "compression_threshold"}
@@ -846,6 +846,7 @@ PARTIAL_EXACT = {"lstsq": [True, False], "svd": [True, False, True], "truncated_
                  "symeig_svd": [True, False, True], "eigh": [False, True], "svd_fun": [True, False, True]}
 EXACT_CALLEES_DEFAULT = {}   # the same under the assumption that the callee (and its callees) run with their boolean / string options at the DEFAULT values
 CALLEE_FLAGS = {}            # bare name -> {"flags": {option: default}, "first": position of the first such option among the parameters}
+RET_INTS = {}           # qualified name -> (length of the returned tuple | None, index-valued positions) of the last extract_all
 INT_POSITIONS = {}      # bare name of a library function returning a tuple -> [length of the tuple, positions that hold index / count values (Python ints, integer
                         # arrays, lists of index tuples) in EVERY return statement]; loaded from the baseline, re-derived and compared on every run
 MODULE_OBJECTS = {}     # module path -> names bound at module level to a mutable container / the result of a call (a singleton): PERSISTENT state, filled by extract_functions
@@ -2025,6 +2026,7 @@ def extract_all(repo, defaults_mode=False):
             except RecursionError:
                 out[q] = {"error": "recursion limit"}
                 continue
+            RET_INTS[q] = (r.get("ret_len"), r.get("int_positions") or [])      # (also of the functions without array outputs: they may return only indices)
             if r["n_out"]:
                 out[q] = r
     return out
@@ -2142,11 +2144,11 @@ def callee_specs(ex, exact):
 def int_positions_table(ex):
     """bare function name -> [tuple length, positions index-valued in every return] (all functions of that name agreeing; methods excluded)"""
     per = {}
-    for q, r in ex.items():
+    for q, (L_, pos_) in RET_INTS.items():          # filled by the extract_all that produced `ex`
         name = q.rsplit(".", 1)[1]
-        if "error" in r or name.startswith("__") or q.rsplit(".", 2)[1][:1].isupper():
+        if name.startswith("__") or q.rsplit(".", 2)[1][:1].isupper():
             continue
-        per.setdefault(name, []).append((r.get("ret_len"), set(r.get("int_positions") or [])))
+        per.setdefault(name, []).append((L_, set(pos_)))
     out = {}
     for name, lst in per.items():
         Ls = {L for L, _ in lst}
@@ -2882,7 +2884,11 @@ def run(chk):
                        "(f) complex64 / complex128 input for every row whose entry point accepts complex data (rows written for complex data + the COMPLEX_ALSO rows); "
                        "(g) exact-dtype tie: for every function with outputs recorded as exactly-the-data's-dtype in the baseline, the regenerated program is re-checked inside Coq "
                        "(ext_exact_any / ext_exact_same) and cross-checked against this run's complex-data executions of the certified entry points; "
-                       "(h) the plain mask multipliers with every mask kind, the skeleton variant (mask as passed / cast) selected from the source of the checked tree")
+                       "(h) the plain mask multipliers with every mask kind, the skeleton variant (mask as passed / cast) selected from the source of the checked tree; "
+                       "(i) history independence: every row (random rows included) again in fresh processes with the data dtypes in another order (float64 first, complex128 first; "
+                       "thorough: complex64 first) - all rows in one process - and compared call by call with this process's float32-first pass; fingerprint of the library's persistent "
+                       "state before / after the table pass; ast scan of all functions of the library for state that outlives a call; hist_free (Model/DtypeHist.v) inside Coq on every "
+                       "extracted program that refers to persistent state and on built-in canaries; 10 rows that fit the same estimator object twice with data of different precision")
     # ---- 3b. self-test of the ast translator against real executions (random straight-line functions)
     tcases, tmeta = translator_selftest_cases(random.Random(f"C18-tr-{chk.seed}"), 20 if chk.tier == "quick" else 150)
     tfailing, t_eval, tbroken = C.run_case_shards("C18", HEADER, "case", tcases, shard=300, tag="trself")
@@ -3115,7 +3121,10 @@ def run(chk):
                        "observed output dtypes of this run's configurations",
                        "a mask is an indicator, not data: for every mask dtype (bool, int64, float of another precision) the expected dtype is the data's",
                        "real-valued-by-definition outputs (errors, norms, singular values, |weights|) of complex input are expected in the real type of the same precision"]
+    chk.assumptions.append("call sequences: the per-call theorems extend to every session for programs without persistent variables (C18_stateless_history_independent); that the CODE "
+                           "keeps no state between calls is checked by the fail-closed instruments of harness/props/C18_hist.py, state kept on estimator instances only by the refit rows")
     chk.trusted = ["the ast -> dtype-program translator in harness/props/C18.py (call table, join of alternatives, loop unrolling, modular summaries of callees)",
+                   "the persistent-state scanner and snapshot in harness/props/C18_hist.py (what counts as state, the whitelist of 25 sites read by hand), tested on every run by canaries",
                    "NumPy's dtype attribute of the returned arrays", "table of entry-point configurations (harness/props/C18.py) as the universe of 'public entry points'"]
     _install_known_loader()
     return chk.finish(CLASSIFIERS)
